@@ -18,7 +18,9 @@ CHECKS = {
             "plus random multisets with indices up to u32::MAX and mixed resource kinds, is run "
             "through the real generator; outcome (Ok / typed error + payload / panic) and the "
             "binding numbers of every Ok module are compared with a reference predicate over "
-            "the multiset. Exhaustive for the small grid, sampled beyond it.",
+            "the multiset. Exhaustive for the small grid, sampled beyond it. The random part mixes "
+            "resource kinds incl. runtime-array structs and draws derive switches at random; "
+            "declaration-only sources (no entry point) are part of both parts.",
             "naga's parse/validate verdict (called directly) decides what is inside the accepted "
             "language; binding numbers of Ok modules are read from the returned text.",
             "DESIGN.md §8 C11"),
@@ -43,12 +45,16 @@ CHECKS["C19"] = (
     "runtime monitoring under injected faults: child processes whose PATH resolves `rustfmt` to "
     "fault stubs, failpoint delay between spawn and write; returned text compared by canonical "
     "form with the formatter-off program; hang classified by idle CPU",
-    "Every cell of {13 formatter faults: absent, exit!=0 after/without reading, killed by "
+    "Every cell of {17 formatter faults: absent, exit!=0 after/without reading, killed by "
     "SIGKILL/SIGTERM before/after reading, partial output then killed/failed, garbage + failure, "
     "reads 1 KiB then fails, empty output with exit 0 (with and without reading), slow but "
-    "correct} x {output below/above the 64 KiB pipe buffer} x {failpoint delay 0/50 ms} is run "
+    "correct, output cut inside a multi-byte character, whole input echoed then failure} x "
+    "{output below/above the 64 KiB pipe buffer} x {failpoint delay 0/50 ms} is run "
     "in its own child; the real formatter is run over the whole corpus and over five derive "
-    "option sets; every returned text must be Ok and canonically (token sequence) equal to the "
+    "option sets; six shaders above the pipe buffer run concurrently on six threads; a history "
+    "cell switches the formatter between calls of one thread (fault after a long output, then a "
+    "healthy formatter and a shorter text ...); "
+    "every returned text must be Ok and canonically (token sequence) equal to the "
     "formatter-off program; no panic; no blocked child.",
     "canonical form = syn::parse_file -> prettyplease::unparse; the fault list is the "
     "property's own plus close variants; exit 0 with truncated output is undetectable and out "
@@ -59,12 +65,16 @@ CHECKS["C20"] = (
     "runtime monitoring of cost: hook step counters + thread CPU time per call in child "
     "processes under RLIMIT_CPU, on shader families of growing call depth / type nesting, "
     "bounded by a polynomial in the naga IR size",
-    "30 families of growing size: call chains and diamonds (value and void calls, width 2-4, "
+    "50 families: call chains and diamonds (value and void calls, width 2-4, "
     "depth up to 64), calls buried in if/loop/continuing/switch, several entry points over one "
     "deep graph, fan-out, many call sites, struct towers (arity 2/3/8, with arrays), let-chain "
     "DAGs (plain and as call argument), control flow nested up to 24 deep (multi-selector "
     "switch, if/else, loop, continuing, block), long bodies, wide shaders, a formatter-on family "
-    "above the pipe buffer: each generated in a child under RLIMIT_CPU=10 s and RLIMIT_AS=6 GiB. "
+    "above the pipe buffer, lattices (2-4 different helpers per level), up to 300 functions "
+    "before a deep diamond, chains of depth 256, override / const / alias chains, 'magnitude' "
+    "families in which one number of the shader grows to its maximum at constant shader size, "
+    "and an error-path family (sparse group indices up to 2^32-1): "
+    "each generated in a child under RLIMIT_CPU=10 s and RLIMIT_AS=6 GiB. "
     "Oracle: hook steps <= 8*N^2 (N = naga IR size), CPU <= 2 s for <= 400 lines, no memory "
     "blow-up, no blocked child, fitted growth exponent of steps vs N <= 2.5 per family.",
     "bound constants are ours (far above a linear walk); shapes are sampled, not all call graphs.",
@@ -72,10 +82,13 @@ CHECKS["C20"] = (
 CHECKS["C18"] = (
     "exploration",
     "runtime monitoring: equality monitor over (source, path, options) keys across processes / "
-    "threads / call orders / working directories / environments; strace syscall monitor "
-    "bracketed by marker syscalls; ThreadSanitizer and Miri runs in the thorough tier",
-    "247 keys (corpus + generated many-struct/many-group shaders x 6 option sets x embedded / "
-    "3 include paths) are generated in 9 (quick) / 25 (thorough) processes with fresh hash "
+    "threads / call orders / call histories / working directories / environments; process-state "
+    "monitor (descriptors, children, cwd, environment, signal disposition, umask) around every "
+    "single-threaded call; strace syscall monitor bracketed by marker syscalls; ThreadSanitizer "
+    "and Miri runs in the thorough tier",
+    "~470 keys (corpus + generated many-struct/many-group shaders + shaders the tool refuses "
+    "(doubly declared slots, gaps, front-end errors) x 8 option sets incl. narrow capability "
+    "sets x embedded / 3 include paths) are generated in 9 (quick) / 25 (thorough) processes with fresh hash "
     "seeds, shuffled orders, two working directories (one holding files named like the include "
     "paths), three environments, on 16 threads and back to back; all results per key must be "
     "byte-identical. One process runs under strace: between the driver's marker syscalls the "
@@ -83,8 +96,10 @@ CHECKS["C18"] = (
     "pipe/spawn/wait protocol (own descriptors only, openat only of /dev/null, exec only of "
     "rustfmt) when the formatter is on. Also: a 16-thread stress run on shaders with 40-120 "
     "deep call chains, formatter-on outputs above 64 KiB on 6 threads and under strace, a shader "
-    "with three push constants, and a correct-but-slow formatter (bytes must not depend on "
-    "speed). Thorough: TSan build x5 runs, Miri with 4 seeds.",
+    "with three push constants, a correct-but-slow formatter (bytes must not depend on "
+    "speed), four environments for the formatter-on runs (RUSTFMT etc. pointing elsewhere), "
+    "and a history run in which the formatter is missing / failing for some calls and back for "
+    "the next. Thorough: TSan build x5 runs, Miri with 4 seeds.",
     "environment reads are invisible to strace (covered differentially); byte identity with "
     "rustfmt on assumes no rustfmt.toml in the working directory.",
     "DESIGN.md §8 C18")
@@ -150,8 +165,10 @@ CHECKS["C05"] = (
     "(accepted => layout == WGSL, observed on the accepted module itself), completeness "
     "(layout differs => rejected, and every differing member/size is named by an assertion), "
     "precision (a named member really differs). Workload includes vec3 traps, all matrix "
-    "shapes, nesting, arrays, @size/@align, isolated single-offset mismatches, structs that are "
-    "host-shareable only through members of members.",
+    "shapes, nesting (up to 9 array / 10 struct levels), arrays, @size/@align, isolated "
+    "single-offset mismatches, structs that are host-shareable only through members of members "
+    "or 2-D arrays, option sets with validation on. The same jobs are also run through a "
+    "release build of the generator (no debug assertions): the texts must be identical.",
     "nalgebra is a stand-in crate; bool members have no layout and are excluded; the layout "
     "model follows naga where naga deviates from the WGSL text (struct alignment ignores "
     "member @align when nested).",
@@ -188,7 +205,9 @@ CHECKS["C09"] = (
     "each struct's Debug/Clone/Copy/PartialEq/Pod/Zeroable/ShaderType/Serialize/Deserialize "
     "and repr(C) and layout assertions must follow the role x switch table; outputs of one "
     "shader may differ only in derive lists/assertions (same representation) or additionally "
-    "field types (different representation).",
+    "field types (different representation). The matrix cases are regenerated under two "
+    "build-script environments (CARGO_CFG_TARGET_ARCH=wasm32, PROFILE, OPT_LEVEL ...): the texts "
+    "must not change.",
     "trait probes need a compiling module; for rejected modules the derive list is observed.",
     "DESIGN.md §8 C09")
 CHECKS["C10"] = (
@@ -197,7 +216,8 @@ CHECKS["C10"] = (
     "with a unique number per scalar component, decoded at the offsets given by an independent "
     "WGSL layout calculator",
     "Every host-shareable struct built from glam-representable members (incl. vec3 traps, "
-    "arrays of vec3, mat3x3, nesting, runtime arrays with 0/1/2/4 elements, @size/@align "
+    "arrays of vec3, mat3x3, 32-bit atomics, nesting, runtime arrays with 0/1/2/4 elements, "
+    "@size/@align "
     "members) in the encase+glam configuration: each component must sit at its WGSL offset, the "
     "image length must be the WGSL size; a module that does not compile in that configuration "
     "although all its host structs are representable is a violation too.",
@@ -261,7 +281,10 @@ CHECKS["C16"] = (
     "CRLF, control characters, DEL, non-ASCII, non-BMP in comments and identifiers; 12 hostile "
     "include paths (files put in place so the module compiles); formatter on/off: SOURCE and the "
     "string handed to the device must be byte-identical to the input; the include variant must "
-    "be include_str! of exactly the given path and otherwise canonically equal.",
+    "be include_str! of exactly the given path and otherwise canonically equal. Also: eight "
+    "formatter faults with the formatter on (SOURCE compared by content hash), a caller that "
+    "reuses its buffer (same address and length, other text), and a build-script environment "
+    "(CARGO_MANIFEST_DIR, OUT_DIR ...) with absolute include paths inside and outside it.",
     "a run is inconclusive if one of the required character classes was never generated.",
     "DESIGN.md §8 C16")
 CHECKS["C01"] = (
@@ -272,7 +295,8 @@ CHECKS["C01"] = (
     "the tool's own layout assertions and bytemuck's padding check",
     "All texts of the four workload families (all their option sets incl. the full 16x3 derive "
     "matrix and formatter/validation variants), the repository's shaders under 5 option sets "
-    "and ~40 hostile-identifier shaders are type-checked against the real crates; every module "
+    "~40 hostile-identifier shaders, and the texts returned under six formatter faults "
+    "are type-checked against the real crates; every module "
     "gets a definite accepted/rejected verdict; any diagnostic other than the two permitted "
     "kinds is a violation keyed by the responsible construct.",
     "real nalgebra is absent offline (stand-in crate); rustc 1.95, default lint levels.",
